@@ -6,7 +6,11 @@
 (* that is not above the last accepted one is ignored and changes nothing);   *)
 (* a reader answers that map; a merged iterator answers the key-sorted        *)
 (* multiset union of its inputs; a version answers, for a key, the files      *)
-(* whose key range holds it and the values of every file that has it.         *)
+(* whose key range holds it and the values of every file that has it -- in    *)
+(* EVERY level: the files of a level above 0 may overlap (a level-0 compaction *)
+(* takes only the level-1 files that overlap one of its level-0 inputs, so its *)
+(* output can enclose a level-1 file that was left alone; an edit log installs *)
+(* any file at any level).                                                    *)
 (* Keys are pairs <<high 16 bits, low 16 bits>> (TLC integers are 32-bit),    *)
 (* values are interned byte strings (equal bytes <=> equal id) with a length. *)
 (* Every action takes the outputs observed on the real code as parameters and *)
@@ -22,7 +26,7 @@ EXTENDS Integers, Sequences, SequencesExt, FiniteSets, TLC
 VARIABLES
   bld,   \* table id -> builder: accepted keys / values so far, bytes written, open
   tab,   \* table id -> closed table: ascending keys ks, their values vs
-  ver,   \* file number -> file of the version under test: ks, vs
+  ver,   \* file number -> file of the version under test: ks, vs, lvl (its level)
   big    \* table id -> big table described by its size, value palette and sampled keys
 vars == <<bld, tab, ver, big>>
 
@@ -96,8 +100,8 @@ Merged(ts, ks, vs) ==
   /\ UNCHANGED vars
 
 -----------------------------------------------------------------------------
-(* A version (family of a kv store): every flush adds one file; puts = the     *)
-(* <<key, value, length>> triples offered to the flusher in order              *)
+(* A version (family of a kv store): every flush adds one file to level 0;     *)
+(* puts = the <<key, value, length>> triples offered to the flusher in order   *)
 FileOf(puts) ==
   LET b == FoldLeft(LAMBDA acc, p : Offer(acc, p[1], p[2], p[3]), NewBuilder, puts) IN [ks |-> b.ks, vs |-> b.vs]
 \* the new file f of the version carries min / max in its metadata
@@ -105,7 +109,7 @@ Flushed(f, puts, min, max) ==
   /\ f \notin DOMAIN ver
   /\ LET F == FileOf(puts) IN
        /\ F.ks # <<>> /\ min = F.ks[1] /\ max = Last(F.ks)
-       /\ ver' = Put(ver, f, F)
+       /\ ver' = Put(ver, f, [ks |-> F.ks, vs |-> F.vs, lvl |-> 0])
   /\ UNCHANGED <<bld, tab, big>>
 Covers(f, k) == KLeq(ver[f].ks[1], k) /\ KLeq(k, Last(ver[f].ks))
 \* FindFiles(k) / FindReaders(k): exactly the files whose key range holds k, each once
@@ -116,12 +120,80 @@ Found(k, fs) ==
 \* Load(k): the loader saw the values vs (in any order): one per file that has the key
 Holding(k) == {f \in DOMAIN ver : Where(ver[f], k) # {}}
 ValueIn(f, k) == ver[f].vs[CHOOSE i \in Where(ver[f], k) : TRUE]
+\* (compared as multisets; a value is an interned id or, in histories with compactions, a sequence of atoms)
+SameBag(a, b) ==
+  /\ Len(a) = Len(b)
+  /\ {x \in ToSet(a) \cup ToSet(b) :
+        Cardinality({i \in DOMAIN a : a[i] = x}) # Cardinality({i \in DOMAIN b : b[i] = x})} = {}
 Loaded(k, vs) ==
-  /\ LET hs == SetToSeq(Holding(k)) IN
-       SortSeq(vs, <) = SortSeq([i \in 1..Len(hs) |-> ValueIn(hs[i], k)], <)
+  /\ LET hs == SetToSeq(Holding(k)) IN SameBag(vs, [i \in 1..Len(hs) |-> ValueIn(hs[i], k)])
   /\ UNCHANGED vars
 \* the file selection can never hide a value: a file that has the key covers it
 SelectionComplete == \A f \in DOMAIN ver : \A i \in DOMAIN ver[f].ks : Covers(f, ver[f].ks[i])
+
+-----------------------------------------------------------------------------
+(* Levels.  An edit log installs a closed table as file f of level lvl (what a *)
+(* compaction / rollup commit does) or removes a file; the level-0 compaction  *)
+(* (version.go PickL0Compaction + compact_job.go) takes ALL level-0 files and   *)
+(* the level-1 files whose range overlaps the range of ONE of them -- not the   *)
+(* hull of the level-0 ranges -- merges them key by key with the family's       *)
+(* merger and installs the outputs in level 1.  So level 1 is NOT a partition   *)
+(* of the key space: Found / Loaded above quantify over the files of all levels.*)
+Level(n) == {f \in DOMAIN ver : ver[f].lvl = n}
+MinK(f) == ver[f].ks[1]
+MaxK(f) == Last(ver[f].ks)
+Installed(f, t, lvl, min, max) ==
+  /\ f \notin DOMAIN ver /\ t \in DOMAIN tab /\ lvl >= 0
+  /\ min = tab[t].ks[1] /\ max = Last(tab[t].ks)
+  /\ ver' = Put(ver, f, [ks |-> tab[t].ks, vs |-> tab[t].vs, lvl |-> lvl])
+  /\ UNCHANGED <<bld, tab, big>>
+Removed(f) ==
+  /\ f \in DOMAIN ver
+  /\ ver' = [g \in DOMAIN ver \ {f} |-> ver[g]]
+  /\ UNCHANGED <<bld, tab, big>>
+\* GetFiles(level) of every level: the files <<f, level>> of the version, each once
+Listed(fl) ==
+  /\ ToSet(fl) = {<<f, ver[f].lvl>> : f \in DOMAIN ver} /\ Len(fl) = Cardinality(DOMAIN ver)
+  /\ UNCHANGED vars
+
+Overlap(f, g) == ~KLess(MaxK(g), MinK(f)) /\ ~KLess(MaxK(f), MinK(g))
+Picked == Level(0) \cup {g \in Level(1) : \E f \in Level(0) : Overlap(f, g)}
+\* The merger is the caller's.  In the histories with compactions a value is an ascending sequence of
+\* atoms and the merger answers the ascending union of the atoms of its inputs.
+UnionMerge(vals) == SortSeq(SetToSeq(UNION {ToSet(v) : v \in vals}), <)
+MergedTable(fs) ==
+  LET ks == SortSeq(SetToSeq(UNION {ToSet(ver[f].ks) : f \in fs}), KLess) IN
+  [ks |-> ks,
+   vs |-> [i \in 1..Len(ks) |-> UnionMerge({ValueIn(f, ks[i]) : f \in {g \in fs : Where(ver[g], ks[i]) # {}}})]]
+\* the part of table M between two keys (the outputs of one compaction are cut by size: consecutive parts)
+Part(M, lo, hi) ==
+  LET E == SelectSeq([i \in 1..Len(M.ks) |-> <<M.ks[i], M.vs[i]>>], LAMBDA e : KLeq(lo, e[1]) /\ KLeq(e[1], hi)) IN
+  [ks |-> [i \in 1..Len(E) |-> E[i][1]], vs |-> [i \in 1..Len(E) |-> E[i][2]]]
+\* ins = the files that left the version, outs = the files that entered it, in file-number order,
+\* as [f, lvl, min, max] (metadata of the new version)
+Compacted(ins, outs) ==
+  /\ Level(0) # {} /\ ins = Picked /\ outs # <<>>
+  /\ LET M == MergedTable(Picked)
+         J == DOMAIN outs
+         Fs == {outs[j].f : j \in J} IN
+       /\ Cardinality(Fs) = Len(outs) /\ Fs \cap DOMAIN ver = {}
+       /\ {j \in J : ~(/\ outs[j].lvl = 1
+                        /\ outs[j].min \in ToSet(M.ks) /\ outs[j].max \in ToSet(M.ks)
+                        /\ KLeq(outs[j].min, outs[j].max))} = {}
+       /\ {j \in J : j + 1 \in J /\ ~KLess(outs[j].max, outs[j + 1].min)} = {}
+       /\ {i \in DOMAIN M.ks : {j \in J : KLeq(outs[j].min, M.ks[i]) /\ KLeq(M.ks[i], outs[j].max)} = {}} = {}
+       /\ ver' = [f \in (DOMAIN ver \ Picked) \cup Fs |->
+                    IF f \in Fs
+                    THEN LET j == CHOOSE j \in J : outs[j].f = f
+                             P == Part(M, outs[j].min, outs[j].max)
+                         IN [ks |-> P.ks, vs |-> P.vs, lvl |-> 1]
+                    ELSE ver[f]]
+  /\ UNCHANGED <<bld, tab, big>>
+\* a single level-0 file that overlaps nothing in level 1 is moved, not rewritten
+Moved(f) ==
+  /\ Level(0) = {f} /\ Picked = {f}
+  /\ ver' = [ver EXCEPT ![f].lvl = 1]
+  /\ UNCHANGED <<bld, tab, big>>
 
 -----------------------------------------------------------------------------
 (* Big tables (10^5 keys): the i-th key (0-based, ascending) carries a value   *)
